@@ -403,7 +403,7 @@ def gen_synth(rng, n):
             files[t] = [{"imports": imports[t], "content": content}]
         ops = []
         t_now = T0 + 1000
-        kind = rng.choice(["edit", "edit", "edit", "fault", "touch", "reload", "limit", "cycle", "dangling", "raise", "imports"])
+        kind = rng.choice(["edit", "edit", "edit", "fault", "touch", "reload", "limit", "cycle", "dangling", "raise", "imports", "clash"])
         final = rng.choice(tn[1:])
         first = rng.choice(tn)
         ops.append({"op": "load", "name": rng.choice([final, first, tn[-1]]), "limit": None, "fault": None})
@@ -462,6 +462,22 @@ def gen_synth(rng, n):
         elif kind == "dangling":
             files[rng.choice(tn)][0]["imports"].append("no_such_theory")
             ops.append({"op": "load", "name": tn[0], "limit": None, "fault": None})
+        elif kind == "clash":
+            # two theories that do not import each other declare the same constant; whoever imports both cannot load
+            pairs = [(a, b) for a in tn for b in tn if a < b and a not in closure(imports, [b]) and b not in closure(imports, [a])]
+            if pairs:
+                a, b = rng.choice(pairs)
+                dup = {"ty": "def.ax", "name": "c_shared_%s_%s" % (a, b), "type": "bool"}
+                files[a][0]["content"].append(dict(dup))
+                files[b][0]["content"].insert(1, dict(dup))
+                top = "s_top"
+                files[top] = [{"imports": [a, b], "content": synth_theory(rng, top, [], 1, 0, "v0")}]
+                imports[top] = [a, b]
+                tn.append(top)
+                final = rng.choice([top, top, a, b])
+                ops.append({"op": "load", "name": a, "limit": None, "fault": None})
+                ops.append({"op": "load", "name": top, "limit": None, "fault": None})
+                ops.append({"op": "load", "name": b, "limit": None, "fault": None})
         elif kind == "raise":
             # a duplicate constant: unchecked_extend raises while the file is parsed (persistent fault)
             victim = rng.choice(closure(imports, [final]))
@@ -563,6 +579,14 @@ def battery(rng):
     lib["tb"][0]["content"].append({"ty": "def.ax", "name": "c_tb_0", "type": "bool"})
     out.append(Scenario("synth", lib, [L("td"), L("ta"), L("td"), L("tb"), E("tb", 1, later), L("td")],
                         "battery: duplicate constant (raises while parsing), then repaired"))
+    # 6b. two imports declare the same constant: each loads, a theory importing both cannot (diamond duplicate)
+    lib = bat_lib(DIAMOND)
+    dup = {"ty": "def.ax", "name": "c_shared", "type": "bool"}
+    lib["tb"][0]["content"].append(dict(dup))
+    lib["tc"][0]["content"].insert(1, dict(dup))
+    out.append(Scenario("synth", lib, [L("tb"), L("tc"), L("td"), L("td"), L("te"), L("tc", ["def.ax", "c_shared"]), L("tz"), L("ta"),
+                                       E("tc", 1, later), L("td"), L("te")],
+                        "battery: two imports declare the same constant (extension raises), then one of them repaired"))
     # 7. limits
     lib = bat_lib(CHAIN)
     first = lib["td"][0]["content"][0]
@@ -603,6 +627,44 @@ def run_runner(ctx, spec, tag, timeout=900):
         if line.startswith("@@C12@@"):
             return json.loads(line[7:])
     return {"error": "runner failed: " + (r.stderr or r.stdout)[-600:]}
+
+
+def run_zygote(ctx, specs, tag, timeout=1500):
+    """Run many specs as forked children of one process that has imported the loader (see c12_runner.py --zygote).
+    specs: {key: spec}; returns {key: result}."""
+    if not specs:
+        return {}
+    any_spec = next(iter(specs.values()))
+    boot = os.path.join(ctx.scratch, "zygote-%s.json" % tag)
+    with open(boot, "w") as fh:
+        json.dump({"repo": any_spec["repo"], "interest": any_spec["interest"], "ops": [], "workers": WORKERS}, fh)
+    lines, outs = [], {}
+    for n, (k, spec) in enumerate(specs.items()):
+        sp = os.path.join(ctx.scratch, "zspec-%s-%d.json" % (tag, n))
+        outs[k] = os.path.join(ctx.scratch, "zout-%s-%d.json" % (tag, n))
+        with open(sp, "w") as fh:
+            json.dump(spec, fh)
+        lines.append(json.dumps({"spec": sp, "out": outs[k]}))
+    env = dict(os.environ)
+    env["PYTHONDONTWRITEBYTECODE"] = "1"
+    env["PYTHONPATH"] = any_spec["repo"]
+    env["PYTHONHASHSEED"] = "0"
+    err = ""
+    try:
+        r = subprocess.run(["/venv/bin/python", RUNNER, "--zygote", boot], cwd=any_spec["repo"], input="\n".join(lines) + "\n",
+                           capture_output=True, text=True, timeout=timeout, env=env)
+        err = (r.stderr or "")[-400:]
+    except subprocess.TimeoutExpired:
+        err = "timeout"
+    res = {}
+    for k, o in outs.items():
+        res[k] = {"error": "runner failed: " + err}
+        if os.path.exists(o):
+            with open(o) as fh:
+                for line in fh:
+                    if line.startswith("@@C12@@"):
+                        res[k] = json.loads(line[7:])
+    return res
 
 
 def prepare(ctx, sc, idx, src):
@@ -722,16 +784,6 @@ class ModelView:
                             refs = [w for w in it["prop"].split() if w != "⟶"]
                             groups = [definers.get(w, [0]) for w in dict.fromkeys(refs)]
                             rules.append([self.item(n, v, i), "ok", groups])
-            # duplicate constants: the second definition raises when the first is visible -- only the
-            # same-file case is generated ("raise" scenarios); rule: raise
-            for n in self.names:
-                for v, ver in enumerate(self.files[n]):
-                    names_seen = set()
-                    for i, it in enumerate(ver["content"]):
-                        if it["ty"] == "def.ax":
-                            if it["name"] in names_seen:
-                                rules.append([self.item(n, v, i), "raise", []])
-                            names_seen.add(it["name"])
         else:
             for n, fl in self.flags.items():
                 if n in self.tid:
@@ -739,6 +791,19 @@ class ModelView:
                         if not ok:
                             rules.append([self.item(n, 0, i), "err", []])
         return rules
+
+    def ext_rules(self):
+        """extension rules for the model: a constant cannot be added to a theory that already has a constant of that
+        name (unchecked_extend raises 'Constant ... already exists'), whichever file declares it"""
+        if self.sc.kind != "synth":
+            return []
+        definers = {}
+        for n in self.names:
+            for v, ver in enumerate(self.files[n]):
+                for i, it in enumerate(ver["content"]):
+                    if it["ty"] == "def.ax":
+                        definers.setdefault(it["name"], []).append(self.item(n, v, i))
+        return [[x, [y for y in ds if y != x]] for ds in definers.values() if len(ds) > 1 for x in ds]
 
     def limit(self, n, v, lim):
         if lim is None:
@@ -784,7 +849,7 @@ class ModelView:
                             [self.item(n, v, i) for i in range(len(self.files[n][v]["items"]))], op["mtime"]])
             elif op["op"] == "reload":
                 ops.append(["reload"])
-        return sexp.dumps(["run", FUEL, [self.tid[n] for n in self.names], files, lazy, mods, self.rules(), ops])
+        return sexp.dumps(["run", FUEL, [self.tid[n] for n in self.names], files, lazy, mods, self.rules(), self.ext_rules(), ops])
 
 
 def parse_model(line, mv):
@@ -1017,11 +1082,10 @@ def judge(ctx, sc, j, hop, fop, label):
 def instrumented(h):
     """Did the tracing wrappers of c12_runner.py see the loader's work?  (They hang on internals: module attributes of
     logic/basic.py and server/items.py; a harmless refactoring may bypass them.)"""
-    loaded = any(op["res"] == "ok" and op.get("names") is not None and "digest" in op for op in h["ops"])
     ins = h.get("instr")
-    if not loaded or ins is None:
-        return True
-    return ins["json"] > 0 and ins["parse"] > 0 and ins["extend"] > 0 and ins["tagged"] == ins["extend"]
+    if ins is None or (ins["json"] == 0 and ins["parse"] == 0 and ins["extend"] == 0):
+        return True                     # nothing was read or extended (e.g. every load failed in load_metadata)
+    return ins["json"] > 0 and ins["parse"] > 0 and ins["tagged"] == ins["extend"]
 
 
 def model_names(mv, sc, j, thy):
@@ -1078,30 +1142,38 @@ def correspond(ctx, sc, h, model_out, mv, label):
     return True
 
 
-def run_scenarios(ctx, scs, src, label):
+def run_scenarios(ctx, scs, src, label, zygote=False):
     """Runs every scenario (one history process + one fresh process per judged load, in parallel), judges every
-    judged load against the fresh process and the reference loader, and compares every step with the model."""
-    jobs = {}
-    fresh_cache = {}
+    judged load against the fresh process and the reference loader, and compares every step with the model.
+    zygote=True: the processes are forked from one process that has just imported the loader (synthetic battery);
+    otherwise every run is a cold `python` process."""
     specs = []
     for idx, sc in enumerate(scs):
         specs.append(prepare(ctx, sc, "%s%d" % (label, idx), src))
-    with concurrent.futures.ThreadPoolExecutor(max_workers=WORKERS) as ex:
-        for idx, sc in enumerate(scs):
-            hspec, fspecs = specs[idx]
-            jobs[("h", idx)] = ex.submit(run_runner, ctx, hspec, "%s-h%d" % (label, idx))
-        for idx, sc in enumerate(scs):
-            hspec, fspecs = specs[idx]
-            for j, fspec in fspecs.items():
-                fk = fresh_key(sc, j)
-                if fk not in fresh_cache:
-                    fresh_cache[fk] = ex.submit(run_runner, ctx, fspec, "%s-f%d-%d" % (label, idx, j))
-                jobs[("f", idx, j)] = fresh_cache[fk]
-        results = {}
-        for n_done, (k, jb) in enumerate(jobs.items()):
-            results[k] = jb.result()
-            if (n_done + 1) % 40 == 0:
-                ctx.log("%s: %d/%d subprocess results collected (%d processes)" % (label, n_done + 1, len(jobs), len(fresh_cache) + len(scs)))
+    todo, alias, fresh_cache = {}, {}, {}
+    for idx, sc in enumerate(scs):
+        todo[("h", idx)] = specs[idx][0]
+    for idx, sc in enumerate(scs):
+        for j, fspec in specs[idx][1].items():
+            fk = fresh_key(sc, j)
+            if fk not in fresh_cache:
+                fresh_cache[fk] = ("f", idx, j)
+                todo[("f", idx, j)] = fspec
+            alias[("f", idx, j)] = fresh_cache[fk]
+    if zygote:
+        done = run_zygote(ctx, todo, label)
+    else:
+        done = {}
+        with concurrent.futures.ThreadPoolExecutor(max_workers=WORKERS) as ex:
+            futs = {k: ex.submit(run_runner, ctx, sp, "%s-%s" % (label, "-".join(map(str, k)))) for k, sp in todo.items()}
+            for n_done, (k, jb) in enumerate(futs.items()):
+                done[k] = jb.result()
+                if (n_done + 1) % 40 == 0:
+                    ctx.log("%s: %d/%d subprocess results collected" % (label, n_done + 1, len(futs)))
+    results = dict(done)
+    for k, k0 in alias.items():
+        results[k] = done[k0]
+    ctx.log("%s: %d scenarios, %d processes (%s)" % (label, len(scs), len(todo), "forked from one importer" if zygote else "cold"))
     ctx.count("processes", len(fresh_cache) + len(scs))
     lines, views = [], []
     for idx, sc in enumerate(scs):
@@ -1207,7 +1279,7 @@ def run(ctx):
     bat = battery(ctx.rng("battery"))
     for sc in bat[:1] + bat[7:8]:
         ctx.sample({"kind": sc.kind, "ops": sc.ops, "note": sc.note})
-    run_scenarios(ctx, bat, src, "battery")
+    run_scenarios(ctx, bat, src, "battery", zygote=True)
     scs = gen_real(rng, src, ctx.scale(2, 22), heavy) + gen_copy(rng, src, ctx.scale(1, 10)) + gen_synth(rng, ctx.scale(4, 38))
     for sc in scs[:2] + scs[-2:]:
         ctx.sample({"kind": sc.kind, "ops": sc.ops, "note": sc.note})
